@@ -7,5 +7,7 @@ CONSTANTS
   MaxVals = 2
   HookDepth = 2
   OwnBytes = TRUE
+  Nodes = {}
+  ConnConfig = "live"
 INVARIANTS StoredForm ReadBack OnlyWhenEnabled
 CHECK_DEADLOCK FALSE
